@@ -128,12 +128,11 @@ def FML.cutoff (l : FML) : Int :=
 def ForeignMaster.purge (cutoff : Int) (m : ForeignMaster) : ForeignMaster :=
   { m with recs := m.recs.filter (fun r => r.age < cutoff) }
 
-/-- `ForeignMaster::register_announce_message` -/
+/-- `ForeignMaster::register_announce_message`: purge, then push (dropping the oldest when full) -/
 def ForeignMaster.register (cutoff : Int) (m : ForeignMaster) (a : Ann) (age : Int) : ForeignMaster :=
-  let m := m.purge cutoff
-  let r : FRec := ⟨a, age⟩
-  if m.recs.length < MAX_ANNOUNCE_MESSAGES then { m with recs := m.recs ++ [r] }
-  else { m with recs := m.recs.drop 1 ++ [r] }
+  if (m.purge cutoff).recs.length < MAX_ANNOUNCE_MESSAGES then
+    { id := m.id, recs := (m.purge cutoff).recs ++ [⟨a, age⟩] }
+  else { id := m.id, recs := (m.purge cutoff).recs.drop 1 ++ [⟨a, age⟩] }
 
 def ForeignMaster.stepAge (cutoff : Int) (step : Int) (m : ForeignMaster) : ForeignMaster :=
   ({ m with recs := m.recs.map (fun (r : FRec) => { r with age := r.age + step }) }).purge cutoff
@@ -145,20 +144,17 @@ def FML.stepAge (l : FML) (step : Int) : FML :=
 /-- sequence-id freshness: `announce.wrapping_sub(last) >= u16::MAX / 2` rejects -/
 def seqStale (newSeq lastSeq : Nat) : Bool := (newSeq + 65536 - lastSeq) % 65536 ≥ SEQ_HALF
 
-/-- `is_announce_message_qualified` -/
+/-- rule 2 of `is_announce_message_qualified`: not newer than the last stored message of that master -/
+def FML.stale (l : FML) (a : Ann) : Bool :=
+  match l.masters.find? (fun m => m.id = a.hdr.src) with
+  | some m => (match m.recs.getLast? with
+               | some last => seqStale a.hdr.seq last.ann.hdr.seq
+               | none => false)
+  | none => false
+
+/-- `is_announce_message_qualified`: not from our own clock, newer than what is stored, stepsRemoved < 255 -/
 def FML.qualified (l : FML) (a : Ann) : Bool :=
-  let src := a.hdr.src
-  if src.clock = l.own.clock then false
-  else
-    let stale :=
-      match l.masters.find? (fun m => m.id = src) with
-      | some m => (match m.recs.getLast? with
-                   | some last => seqStale a.hdr.seq last.ann.hdr.seq
-                   | none => false)
-      | none => false
-    if stale then false
-    else if a.body.steps ≥ STEPS_CUTOFF then false
-    else true
+  decide (a.hdr.src.clock ≠ l.own.clock) && !l.stale a && decide (a.body.steps < STEPS_CUTOFF)
 
 /-- `ForeignMasterList::register_announce_message` -/
 def FML.register (l : FML) (a : Ann) (age : Int) : FML :=
@@ -170,17 +166,19 @@ def FML.register (l : FML) (a : Ann) (age : Int) : FML :=
     { l with masters := l.masters ++ [⟨a.hdr.src, [⟨a, 0⟩]⟩] }
   else l
 
+/-- one master of `take_qualified_announce_messages`: with ≥ THRESHOLD records its newest record is
+removed and appended to the output -/
+def tqStep (m : ForeignMaster) (acc : List ForeignMaster × List FRec) : List ForeignMaster × List FRec :=
+  if m.recs.length ≥ FM_THRESHOLD then
+    match m.recs.getLast? with
+    | some r => ({ m with recs := m.recs.dropLast } :: acc.1, acc.2 ++ [r])
+    | none => (m :: acc.1, acc.2)
+  else (m :: acc.1, acc.2)
+
 /-- `take_qualified_announce_messages`: walking the masters from last to first, the newest record
 of every master with ≥ THRESHOLD records is removed and returned -/
 def FML.takeQualified (l : FML) : FML × List FRec :=
-  let step := fun (m : ForeignMaster) (acc : List ForeignMaster × List FRec) =>
-    if m.recs.length ≥ FM_THRESHOLD then
-      match m.recs.getLast? with
-      | some r => ({ m with recs := m.recs.dropLast } :: acc.1, acc.2 ++ [r])
-      | none => (m :: acc.1, acc.2)
-    else (m :: acc.1, acc.2)
-  let (ms, out) := l.masters.foldr step ([], [])
-  ({ l with masters := ms }, out)
+  ({ l with masters := (l.masters.foldr tqStep ([], [])).1 }, (l.masters.foldr tqStep ([], [])).2)
 
 /-! ### best announce message -/
 
